@@ -33,6 +33,7 @@ PROP_MODULES = {
     "C14": ["c14"],
     "C17": ["c17"],
     "C13": ["c13", "c11"],
+    "C06": ["c06"],
 }
 
 
